@@ -3,13 +3,20 @@
 For every function of generator/simplifier/duplicate_checker that (transitively) performs MPI collectives,
 list the collective sites with the control constructs around them and decide *admissibility*: a collective is
 admissible iff no enclosing `if`/`while`/`for`, and no earlier conditional `return`/`break`/`continue`/`raise`
-in the same function, depends on a rank-tainted value.  Taint sources: `rank`, results of `split_idx`, and
-anything assigned from a tainted expression (fix-point per function).  Also lists every use site of
-`split_idx` and whether the empty result (`[]`, a rank with no work) is handled before it is indexed/unpacked.
+in the same function, depends on a rank-tainted value.  Taint sources: `rank`, results of `split_idx`, results of
+module functions whose own return value is rank-tainted (computed to a fix-point over the three modules, so that
+factoring the block arithmetic into a helper does not hide it), and anything assigned from a tainted expression
+(fix-point per function).  Also lists every use site of `split_idx` in ANY function of the three modules and whether the
+empty result (`[]`, a rank with no work) is handled: from the assignment `v = split_idx(…)` up to the next rebinding of `v`,
+in program order, `v` may only be read inside an `if` / conditional expression whose test looks at its emptiness
+(`len(v)` in any comparison; for a bare list result also `v`, `not v`, `v == []`), and there must be such a test.
+(The tables carry source line numbers and the text of offending conditions for the reader; the theorems only look at the
+`admissible` / `handlesEmpty` flags, so they re-check unchanged when code moves.)
 """
 import ast
 import extract
 from extract import ExtractError, lstr
+from extractors import _norm_c13 as norm
 
 FILES = ["esr/generation/generator.py", "esr/generation/simplifier.py", "esr/generation/duplicate_checker.py"]
 COLLECTIVES = {"bcast", "gather", "scatter", "Barrier", "allgather", "barrier"}
@@ -39,13 +46,165 @@ def _callee(n):
 
 
 def _names(e):
-    return {n.id for n in ast.walk(e) if isinstance(n, ast.Name)}
+    """names of the enclosing function's scope mentioned in e (variables bound by a comprehension inside e are its own)"""
+    own = set()
+    for c in ast.walk(e):
+        if isinstance(c, (ast.ListComp, ast.SetComp, ast.DictComp, ast.GeneratorExp)):
+            bound = {n.id for g in c.generators for n in ast.walk(g.target) if isinstance(n, ast.Name)}
+            own |= {id(n) for n in ast.walk(c) if isinstance(n, ast.Name) and n.id in bound}
+    return {n.id for n in ast.walk(e) if isinstance(n, ast.Name) and id(n) not in own}
+
+
+RET_TAINTED = set()          # module functions whose return value depends on the rank (set by analyse)
 
 
 def _expr_tainted(e, taint):
     if isinstance(e, ast.Call) and _is_comm_call(e) and e.func.attr in ("bcast", "allgather"):
         return False                     # the result of a broadcast is the same on every rank
-    return bool(_names(e) & taint) or any(_callee(c) == "split_idx" for c in ast.walk(e) if isinstance(c, ast.Call))
+    return bool(_names(e) & taint) or any(_callee(c) == "split_idx" or _callee(c) in RET_TAINTED for c in ast.walk(e) if isinstance(c, ast.Call))
+
+
+def _tests_empty(test, var, direct, aliases=()):
+    """the test looks at the emptiness of `var` (`direct`: var holds the list split_idx returned, not an ndarray made of it);
+    `aliases`: names holding `len(var)` or a comparison of it (`n = len(var)`, `empty = len(var) == 0`)"""
+    for n in ast.walk(test):
+        if isinstance(n, ast.Name) and n.id in aliases:
+            return True
+        if isinstance(n, ast.Call) and isinstance(n.func, ast.Name) and n.func.id == "len" and len(n.args) == 1 \
+                and isinstance(n.args[0], ast.Name) and n.args[0].id == var:
+            return True
+    if not direct:
+        return False
+    isv = lambda x: isinstance(x, ast.Name) and x.id == var
+    if isv(test):
+        return True
+    for n in ast.walk(test):
+        if isinstance(n, ast.UnaryOp) and isinstance(n.op, ast.Not) and isv(n.operand):
+            return True
+        if isinstance(n, ast.BoolOp) and any(isv(v) for v in n.values):
+            return True
+        if isinstance(n, ast.Compare) and len(n.ops) == 1 and isinstance(n.ops[0], (ast.Eq, ast.NotEq)) and isv(n.left) \
+                and isinstance(n.comparators[0], ast.List) and not n.comparators[0].elts:
+            return True
+    return False
+
+
+def _sub_bodies(st):
+    out = [getattr(st, f) for f in ("body", "orelse", "finalbody") if isinstance(getattr(st, f, None), list)]
+    return out + [h.body for h in getattr(st, "handlers", []) or []]
+
+
+def _following(body, target):
+    """the statements executed after `target` in program order (rest of its block, then of the enclosing blocks)"""
+    for k, st in enumerate(body):
+        if st is target:
+            return list(body[k + 1:])
+        if isinstance(st, (ast.FunctionDef, ast.ClassDef)):
+            continue
+        for sub in _sub_bodies(st):
+            r = _following(sub, target)
+            if r is not None:
+                return r + list(body[k + 1:])
+    return None
+
+
+def _split_handled(fn, st, var, direct):
+    """(handled, how): from `st` (`var = split_idx(…)`) to the next rebinding of var, in program order, var is only read
+    under a test of its emptiness, and there is such a test"""
+    tested = [False]
+    aliases = set()
+
+    def length_alias(s_):
+        """`n = len(var)` / `empty = len(var) == 0`: var is only measured, nothing else is read"""
+        if not (isinstance(s_, ast.Assign) and len(s_.targets) == 1 and isinstance(s_.targets[0], ast.Name) and s_.targets[0].id != var):
+            return False
+        lens = [c for c in ast.walk(s_.value) if isinstance(c, ast.Call) and isinstance(c.func, ast.Name) and c.func.id == "len" and len(c.args) == 1
+                and isinstance(c.args[0], ast.Name) and c.args[0].id == var and not c.keywords]
+        inside = {id(c.args[0]) for c in lens} | {id(c.func) for c in lens}
+        others = [n for n in ast.walk(s_.value) if isinstance(n, ast.Name) and id(n) not in inside]
+        ok_nodes = (ast.Call, ast.Name, ast.Load, ast.Constant, ast.Compare, ast.UnaryOp, ast.Not, ast.BoolOp, ast.And, ast.Or, ast.cmpop)
+        return bool(lens) and not others and all(isinstance(n, ok_nodes) for n in ast.walk(s_.value))
+
+    def own_scopes(node):
+        own = set()          # comprehensions that bind `var` themselves: another variable
+        for c in ast.walk(node):
+            if isinstance(c, (ast.ListComp, ast.SetComp, ast.DictComp, ast.GeneratorExp)) and \
+                    any(isinstance(n, ast.Name) and n.id == var for g in c.generators for n in ast.walk(g.target)):
+                own |= {id(n) for n in ast.walk(c)}
+        return own
+
+    def unguarded_read(node):
+        """node (an expression or simple statement) reads var outside a conditional expression that tests its emptiness"""
+        own = own_scopes(node)
+        guarded = set()
+        for g in ast.walk(node):
+            if isinstance(g, ast.IfExp) and id(g) not in own and _tests_empty(g.test, var, direct, aliases):
+                tested[0] = True
+                guarded |= {id(n) for n in ast.walk(g)}
+        return any(isinstance(n, ast.Name) and n.id == var and isinstance(n.ctx, ast.Load) and id(n) not in own and id(n) not in guarded
+                   for n in ast.walk(node))
+
+    def binds(node):
+        own = own_scopes(node)
+        return any(isinstance(n, ast.Name) and n.id == var and isinstance(n.ctx, (ast.Store, ast.Del)) and id(n) not in own for n in ast.walk(node))
+
+    def seq(stmts):
+        """None: bad read found (line in bad[0]); True: var rebound on every path; False: still the split result"""
+        for s_ in stmts:
+            if isinstance(s_, (ast.FunctionDef, ast.ClassDef)):
+                continue
+            if isinstance(s_, ast.If):
+                if _tests_empty(s_.test, var, direct, aliases):
+                    tested[0] = True
+                    ends = lambda b: bool(b) and isinstance(b[-1], (ast.Return, ast.Raise))
+                    if ends(s_.body) or ends(s_.orelse):
+                        return True                  # early return: what follows is the other branch of the test
+                    if binds(s_):
+                        return True if all(binds(ast.Module(body=b, type_ignores=[])) for b in (s_.body, s_.orelse)) and s_.orelse else False
+                    continue
+                if unguarded_read(s_.test):
+                    bad.append(s_.lineno); return None
+                ra, rb = seq(s_.body), seq(s_.orelse)
+                if ra is None or rb is None:
+                    return None
+                if ra and rb:
+                    return True
+            elif isinstance(s_, (ast.For, ast.While)):
+                head = s_.iter if isinstance(s_, ast.For) else s_.test
+                if unguarded_read(head):
+                    bad.append(s_.lineno); return None
+                if isinstance(s_, ast.For) and binds(s_.target):
+                    return True
+                if seq(s_.body) is None or seq(s_.orelse) is None:
+                    return None
+            elif isinstance(s_, ast.With):
+                if any(unguarded_read(i.context_expr) for i in s_.items):
+                    bad.append(s_.lineno); return None
+                if any(i.optional_vars is not None and binds(i.optional_vars) for i in s_.items):
+                    return True
+                r = seq(s_.body)
+                if r is None or r:
+                    return r
+            elif isinstance(s_, ast.Try):
+                for b in [s_.body] + [h.body for h in s_.handlers] + [s_.orelse, s_.finalbody]:
+                    if seq(b) is None:
+                        return None
+            else:
+                if length_alias(s_):
+                    aliases.add(s_.targets[0].id)
+                    continue
+                if unguarded_read(s_):
+                    bad.append(s_.lineno); return None
+                if binds(s_):
+                    return True
+                aliases.difference_update(norm.stored_names(s_))
+        return False
+
+    bad = []
+    r = seq(_following(fn.body, st) or [])
+    if r is None:
+        return False, "assigned to %s, read without a test of len(%s) (line %d)" % (var, var, bad[0])
+    return tested[0], "assigned to %s, len(%s) %s" % (var, var, "tested" if tested[0] else "never tested")
 
 
 def _param_guard(fn):
@@ -109,12 +268,11 @@ def analyse(stage):
                 continue
             if any(is_coll_call(c, coll) for c in ast.walk(fn) if isinstance(c, ast.Call)):
                 coll.add(name); changed = True
-    sites = []
-    split_sites = []
-    for name in sorted(coll):
-        rel, fn = funcs[name]
+    def scan(name, rel, fn, sites):
+        """walk one function: appends its collective sites to `sites`; returns True if its return value is rank-tainted"""
         taint = {"rank"}
         fn_exits = []           # tainted conditional return/raise seen so far (affect everything after)
+        ret = [False]
 
         def assign(targets, val):
             t = _expr_tainted(val, taint)
@@ -122,8 +280,8 @@ def analyse(stage):
                 for nm in _names(tg):
                     if t:
                         taint.add(nm)
-                    elif isinstance(tg, ast.Name):
-                        taint.discard(nm)          # strong update of a plain name
+                    elif isinstance(tg, ast.Name) or (isinstance(tg, (ast.Tuple, ast.List)) and all(isinstance(x, ast.Name) for x in tg.elts)):
+                        taint.discard(nm)          # strong update of a plain name (or of every name of `a, b = …`)
 
         def record(call, guards, loop_exits):
             op = ("comm." + call.func.attr) if _is_comm_call(call) else ("call " + _callee(call))
@@ -164,8 +322,14 @@ def analyse(stage):
                     scan_expr(st.test, guards, loop_exits)
                     t = _expr_tainted(st.test, taint)
                     g = guards + [("if", ast.unparse(st.test)[:70], t)]
+                    before = set(taint)
                     walk(st.body, g, loop_exits, in_try)
+                    after_body = set(taint)
+                    taint.clear(); taint.update(before)
                     walk(st.orelse, g, loop_exits, in_try)
+                    taint.update(after_body)                # either branch may have run
+                    if t:                                    # which one ran depends on the rank: so does everything they bind
+                        taint.update(norm.stored_names(ast.Module(body=st.body + st.orelse, type_ignores=[])))
                     if t:
                         for ex in exits_in(st.body + st.orelse, (ast.Return, ast.Raise), in_try):
                             fn_exits.append("line %d: %s under rank-dependent `%s`" % (ex.lineno, type(ex).__name__.lower(), ast.unparse(st.test)[:50]))
@@ -201,21 +365,42 @@ def analyse(stage):
                     elif isinstance(st, ast.AugAssign):
                         if _expr_tainted(st.value, taint):
                             taint.update(_names(st.target))
+                    elif isinstance(st, ast.Return):
+                        if any(g[2] and g[0] != "except" for g in guards) or (st.value is not None and _expr_tainted(st.value, taint)):
+                            ret[0] = True
 
         walk(fn.body, [], [], False)
+        return ret[0]
 
-        # split_idx use sites
+    # functions whose return value depends on the rank: least fix-point (a call of such a function taints)
+    RET_TAINTED.clear()
+    while True:
+        new = {name for name, (rel, fn) in funcs.items() if norm._simple_helper(fn) is None and scan(name, rel, fn, [])}
+        if new <= RET_TAINTED:
+            break
+        RET_TAINTED.update(new)
+
+    sites = []
+    split_sites = []
+    for name in sorted(coll):
+        rel, fn = funcs[name]
+        scan(name, rel, fn, sites)
+
+    # split_idx use sites, in every function of the three modules
+    for name in sorted(funcs):
+        rel, fn = funcs[name]
         for st in ast.walk(fn):
             if isinstance(st, ast.Assign) and any(_callee(c) == "split_idx" for c in ast.walk(st.value) if isinstance(c, ast.Call)):
                 tg = st.targets[0]
-                if isinstance(tg, (ast.Tuple, ast.List)):
+                if len(st.targets) == 1 and isinstance(tg, ast.Name):
+                    handled, how = _split_handled(fn, st, tg.id, _callee(st.value) == "split_idx")
+                    split_sites.append((name, rel, st.lineno, handled, how))
+                elif isinstance(tg, (ast.Tuple, ast.List)):
                     split_sites.append((name, rel, st.lineno, False, "result unpacked into %d names" % len(tg.elts)))
-                elif isinstance(tg, ast.Name):
-                    var = tg.id
-                    handled = any(isinstance(n, ast.If) and ("len(%s)" % var) in ast.unparse(n.test) for n in ast.walk(fn))
-                    split_sites.append((name, rel, st.lineno, handled, "assigned to %s, len(%s) %s" % (var, var, "tested" if handled else "never tested")))
                 else:
                     split_sites.append((name, rel, st.lineno, False, "unrecognised target"))
+            elif isinstance(st, (ast.Expr, ast.Return, ast.AugAssign, ast.AnnAssign)) and any(_callee(c) == "split_idx" for c in ast.walk(st) if isinstance(c, ast.Call)):
+                split_sites.append((name, rel, st.lineno, False, "result used without being named"))
     return sites, split_sites, sorted(coll)
 
 
